@@ -605,7 +605,7 @@ def run(prop, tier, replay=None):
         out.notes["behaviours"] = len(behs)
         if not behs:
             raise MachineryError("no behaviour generated (vacuous)")
-        deep = deep_behaviours(ops, sd, 6 if tier == "quick" else 60, 600 if tier == "quick" else 15000)
+        deep = deep_behaviours(ops, sd, 6 if tier == "quick" else 60, 600 if tier == "quick" else 10000)
         out.notes["deep_behaviours"] = len(deep)
         behs = behs + deep
         rs = renderings(sd, 3)
